@@ -2,6 +2,7 @@
 package main
 
 import (
+	"runtime/pprof"
 	"flag"
 	"fmt"
 	"os"
@@ -13,6 +14,12 @@ import (
 func main() {
 	if len(os.Args) < 2 {
 		usage()
+	}
+	if pf := os.Getenv("ASTVERIF_CPUPROFILE"); pf != "" {
+		if f, err := os.Create(pf); err == nil {
+			_ = pprof.StartCPUProfile(f)
+			defer pprof.StopCPUProfile()
+		}
 	}
 	switch os.Args[1] {
 	case "check":
@@ -40,6 +47,11 @@ func main() {
 		}
 	case "summary":
 		props.DebugSummary(os.Args[2:])
+	case "compose":
+		if len(os.Args) < 5 {
+			usage()
+		}
+		props.DebugCompose(os.Args[2], os.Args[3], os.Args[4], len(os.Args) > 5 && os.Args[5] == "ptr")
 	case "list":
 		ids := props.IDs()
 		sort.Strings(ids)
